@@ -269,6 +269,8 @@ def m_slice_iter(ex, st, args, callee, ty):
 
 def m_collect_pathbuf(ex, st, args, callee, ty):
     it = _obj(ex, st, args[0])
+    if isinstance(it, LazyIter):
+        return DrainCont(it, "pathbuf_comp").start(ex, st)
     buf = PathBufM([])
     for c in it.items:
         pathbuf_push_comp(ex, st, buf, _obj(ex, st, c))
@@ -297,6 +299,13 @@ def m_to_owned(ex, st, args, callee, ty):
     return PathBufM(p.comps)
 
 
+def m_file_name_comp(ex, st, args, callee, ty):
+    p = _obj(ex, st, args[0])
+    if p.comps and ex.decide(st, i_eq(p.comps[-1].kind, I(NORMAL))):
+        return opt_some(ex, Str(sym=("atom", p.comps[-1].atom)))
+    return opt_none(ex)
+
+
 def m_generic_eq(ex, st, args, callee, ty):
     a, b = _obj(ex, st, args[0]), _obj(ex, st, args[1])
     if isinstance(a, Comp) and isinstance(b, Comp):
@@ -318,6 +327,7 @@ PATH_MODELS = [
     (rx(r"^<Components<'_> as Iterator>::last$"), m_components_last),
     (rx(r"^<Component<'_> as PartialEq>::eq$"), m_comp_eq),
     (rx(r"^<Component<'_> as PartialEq>::ne$"), m_comp_ne),
+    (rx(r"^<&Component<'_> as PartialEq>::eq$"), m_comp_eq),
     (rx(r"^Option::<Component<'_>>::unwrap$"), m_option_unwrap),
     (rx(r"^PathBuf::pop$"), m_pathbuf_pop),
     (rx(r"^PathBuf::push::<(Component<'_>|&str|&Path|PathBuf|&PathBuf)>$"), m_pathbuf_push),
@@ -329,10 +339,12 @@ PATH_MODELS = [
     (rx(r"^<Vec<Component<'_>> as Extend<Component<'_>>>::extend::<&mut Components<'_>>$"), m_vec_extend_components),
     (rx(r"^(?:core::slice::)?<impl \[Component<'_>\]>::iter$"), m_slice_iter),
     (rx(r"^<(?:std::slice::)?Iter<'_, Component<'_>> as Iterator>::collect::<PathBuf>$"), m_collect_pathbuf),
+    (rx(r"^<(?:std::iter::)?(Map|Filter|SkipWhile|TakeWhile|Take|Skip|Chain)<.*> as Iterator>::collect::<PathBuf>$"), m_collect_pathbuf),
     (rx(r"^<&Path as PartialEq>::ne$"), m_path_ne),
     (rx(r"^<&Path as PartialEq>::eq$"), m_path_eq),
     (rx(r"^<Path as ToOwned>::to_owned$"), m_to_owned),
     (rx(r"^<T as Into<PathBuf>>::into$"), m_to_owned),
+    (rx(r"^Path::file_name$"), m_file_name_comp),
     (rx(r"^<PathBuf as PartialEq>::eq$"), m_path_eq),
     (rx(r"^<U as PartialEq<T>>::eq$"), m_generic_eq),
     (rx(r"^Path::to_path_buf$"), m_to_owned),
@@ -342,6 +354,8 @@ PATH_MODELS = [
 def component_enum_hook(ty, vn, vals):
     if ty == "Component":
         kind = ["Prefix", "RootDir", "CurDir", "ParentDir", "Normal"].index(vn)
+        if kind == NORMAL and vals and isinstance(vals[0], Str) and isinstance(vals[0].sym, tuple):
+            return Comp(kind, vals[0].sym[1])
         return Comp(kind)
     return None
 
@@ -851,6 +865,17 @@ def make_text_models():
             return opt_none(ex)
         return f
 
+    def splitter(reverse):
+        def f(ex, st, args, callee, ty):
+            s, t = sstr_of(ex, st, args[0]), sstr_of(ex, st, args[1])
+            n, k = len(s.chars), len(t.chars)
+            order = range(n - k, -1, -1) if reverse else range(0, n - k + 1)
+            for i in order:
+                if ex.decide(st, chars_eq(s.chars[i:i + k], t.chars) if k else B(True)):
+                    return opt_some(ex, Adt("(tuple)", None, None, [BoxRef(SStr(s.chars[:i])), BoxRef(SStr(s.chars[i + k:]))]))
+            return opt_none(ex)
+        return f
+
     def m_to_lowercase(ex, st, args, callee, ty):
         s = sstr_of(ex, st, args[0])
         for c in s.chars:
@@ -886,6 +911,8 @@ def make_text_models():
         (rx(r"^(?:core::)?str::<impl str>::find::<(&String|&str|char|&&str)>$"), finder(False)),
         (rx(r"^(?:core::)?str::<impl str>::strip_suffix::<(&String|&str|char|&&str)>$"), stripper(True)),
         (rx(r"^(?:core::)?str::<impl str>::strip_prefix::<(&String|&str|char|&&str)>$"), stripper(False)),
+        (rx(r"^(?:core::)?str::<impl str>::rsplit_once::<(&String|&str|char|&&str)>$"), splitter(True)),
+        (rx(r"^(?:core::)?str::<impl str>::split_once::<(&String|&str|char|&&str)>$"), splitter(False)),
         (rx(r"^<(str|String) as Index<RangeTo<usize>>>::index$"), m_index_to),
         (rx(r"^<(str|String) as Index<((?:std::ops::)?)?RangeFrom<usize>>>::index$"), m_index_from),
         (rx(r"^<(str|String) as Index<((?:std::ops::)?)?Range<usize>>>::index$"), m_index_range),
@@ -897,6 +924,10 @@ def make_text_models():
         (rx(r"^<(String|str|&str|&String) as PartialEq(<(&str|str|String|&String)>)?>::eq$"), m_string_eq),
         (rx(r"^<(String|str|&str|&String) as PartialEq(<(&str|str|String|&String)>)?>::ne$"), m_string_ne),
         (rx(r"^<String as Deref>::deref$"), m_deref),
+        (rx(r"^String::(as_str|as_mut_str)$"), m_deref),
+        (rx(r"^<String as (AsRef<str>|Borrow<str>)>::(as_ref|borrow)$"), m_deref),
+        (rx(r"^<&?str as ToString>::to_string$"), m_to_owned),
+        (rx(r"^String::new$"), lambda ex, st, args, callee, ty: SStr([])),
     ]
 
 
@@ -925,10 +956,10 @@ class FilterCont:
 
 
 class LazyIter:
-    """src: list of pending items; stages: [('map'|'filter', fnvalue)]"""
+    """src: list of pending items; stages: [('map'|'filter'|..., fnvalue)]; `tail` is a chained iterator"""
 
-    def __init__(self, items, stages):
-        self.items, self.stages = list(items), list(stages)
+    def __init__(self, items, stages, tail=None):
+        self.items, self.stages, self.tail = list(items), list(stages), tail
 
 
 FINISHERS = {}  # kind -> function(ex, st, cont, out, rest): module-level (no captured state)
@@ -940,6 +971,7 @@ class DrainCont:
     def __init__(self, lazy, kind, limit=None, target=None):
         self.pending = list(lazy.items)
         self.stages = lazy.stages
+        self.tail = lazy.tail
         self.out = []
         self.kind = kind
         self.limit = limit
@@ -956,6 +988,10 @@ class DrainCont:
     def _advance(self, ex, st):
         while True:
             if self.cur is None:
+                if not self.pending and self.tail is not None and not (self.limit is not None and len(self.out) >= self.limit):
+                    t = self.tail
+                    self.pending, self.stages, self.tail = list(t.items), t.stages, t.tail
+                    continue
                 if not self.pending or (self.limit is not None and len(self.out) >= self.limit):
                     return self.finish(ex, st, self.out, self.pending)
                 self.cur = self.pending.pop(0)
@@ -1010,7 +1046,18 @@ def _fin_next(ex, st, cont, out, rest):
     return opt_some(ex, out[0]) if out else opt_none(ex)
 
 
-FINISHERS.update(vec=_fin_vec, count=_fin_count, next=_fin_next)
+def _fin_pathbuf_comp(ex, st, cont, out, rest):
+    buf = PathBufM([])
+    for c in out:
+        pathbuf_push_comp(ex, st, buf, _obj(ex, st, c))
+    return buf
+
+
+def _fin_string(ex, st, cont, out, rest):
+    return SStr(out)
+
+
+FINISHERS.update(vec=_fin_vec, count=_fin_count, next=_fin_next, string=_fin_string, pathbuf_comp=_fin_pathbuf_comp)
 
 
 def _items_of(ex, st, it):
@@ -1190,6 +1237,64 @@ def make_combinators():
             return LazyIter(l.items, l.stages + [(kind, args[1])])
         return f
 
+    def need_plain(l, what):
+        if l.stages or l.tail is not None:
+            raise Unsupported("%s after a pending map/filter stage" % what)
+        return l
+
+    def count_of(ex, st, n, upto):
+        """concrete value of a (possibly symbolic) count, saturated at `upto`"""
+        if n.concrete:
+            return min(n.v, upto)
+        from .values import bv_bin
+        for k in range(upto):
+            if ex.decide(st, bv_bin("Eq", n, BV(n.w, n.signed, k))):
+                return k
+        return upto
+
+    def m_take(ex, st, args, callee, ty):
+        l = need_plain(_items_of(ex, st, args[0]), "take")
+        return LazyIter(l.items[:count_of(ex, st, args[1], len(l.items))], [])
+
+    def m_skip(ex, st, args, callee, ty):
+        l = need_plain(_items_of(ex, st, args[0]), "skip")
+        return LazyIter(l.items[count_of(ex, st, args[1], len(l.items)):], [])
+
+    def m_zip(ex, st, args, callee, ty):
+        a = need_plain(_items_of(ex, st, args[0]), "zip")
+        b = need_plain(_items_of(ex, st, args[1]), "zip")
+        return LazyIter([Adt("(tuple)", None, None, [x, y]) for x, y in zip(a.items, b.items)], [])
+
+    def m_chain(ex, st, args, callee, ty):
+        a = _items_of(ex, st, args[0])
+        b = _items_of(ex, st, args[1])
+        if a.tail is not None:
+            raise Unsupported("chain of a chain")
+        return LazyIter(a.items, a.stages, tail=b)
+
+    def m_enumerate(ex, st, args, callee, ty):
+        l = need_plain(_items_of(ex, st, args[0]), "enumerate")
+        return LazyIter([Adt("(tuple)", None, None, [BV(64, False, i), x]) for i, x in enumerate(l.items)], [])
+
+    def m_rev_iter(ex, st, args, callee, ty):
+        l = need_plain(_items_of(ex, st, args[0]), "rev")
+        return LazyIter(list(reversed(l.items)), [])
+
+    def m_map_or(ex, st, args, callee, ty):
+        o = args[0]
+        some = (o.ty == "Option" and o.variant == 1) or (o.ty == "Result" and o.variant == 0)
+        if not some:
+            return args[1]
+        return CallBack(args[2], [o.fields[0]], Identity())
+
+    def m_as_deref(ex, st, args, callee, ty):
+        o = args[0]
+        if isinstance(o, (Ref, BoxRef)):
+            o = _obj(ex, st, o)
+        if o.variant == 0:
+            return opt_none(ex)
+        return opt_some(ex, o.fields[0])
+
     def collect_into(kind):
         def f(ex, st, args, callee, ty):
             return DrainCont(_items_of(ex, st, args[0]), kind).start(ex, st)
@@ -1224,10 +1329,20 @@ def make_combinators():
         (rx(r"^(Option|Result)::<.*>::(unwrap|expect)$"), m_unwrap),
         (rx(r"^<.* as Iterator>::map::<.*>$"), m_iter_map),
         (rx(r"^<.* as Iterator>::filter::<.*>$"), m_iter_filter),
+        (rx(r"^<.* as Iterator>::take$"), m_take),
+        (rx(r"^<.* as Iterator>::skip$"), m_skip),
+        (rx(r"^<.* as Iterator>::zip::<.*>$"), m_zip),
+        (rx(r"^<.* as Iterator>::enumerate$"), m_enumerate),
+        (rx(r"^<.* as Iterator>::chain::<.*>$"), m_chain),
+        (rx(r"^(Option|Result)::<.*>::map_or::<.*>$"), m_map_or),
+        (rx(r"^Option::<.*>::as_deref$"), m_as_deref),
+        (rx(r"^Option::<.*>::as_ref$"), m_as_deref),
         (rx(r"^<.* as Iterator>::skip_while::<.*>$"), stage("skip_while")),
         (rx(r"^<.* as Iterator>::take_while::<.*>$"), stage("take_while")),
-        (rx(r"^<(Map|Filter|SkipWhile|TakeWhile)<.*> as Iterator>::collect::<Vec<.*>>$"), collect_into("vec")),
-        (rx(r"^<(Map|Filter|SkipWhile|TakeWhile)<.*> as Iterator>::count$"), collect_into("count")),
-        (rx(r"^<(Map|Filter|SkipWhile|TakeWhile)<.*> as Iterator>::next$"), m_lazy_next),
-        (rx(r"^<(Map|Filter|SkipWhile|TakeWhile)<.*> as IntoIterator>::into_iter$"), m_into_iter_identity),
+        (rx(r"^<(?:std::iter::)?(Map|Filter|SkipWhile|TakeWhile|Take|Skip|Zip|Enumerate|Chain)<.*> as Iterator>::collect::<Vec<.*>>$"), collect_into("vec")),
+        (rx(r"^<(?:std::iter::)?(Map|Filter|SkipWhile|TakeWhile|Take|Skip|Zip|Enumerate|Chain)<.*> as Iterator>::count$"), collect_into("count")),
+        (rx(r"^<(?:std::iter::)?(Map|Filter|SkipWhile|TakeWhile|Take|Skip|Zip|Enumerate|Chain|Rev)<.*> as Iterator>::collect::<String>$"), collect_into("string")),
+        (rx(r"^<Chars<'_> as Iterator>::collect::<String>$"), collect_into("string")),
+        (rx(r"^<(?:std::iter::)?(Map|Filter|SkipWhile|TakeWhile|Take|Skip|Zip|Enumerate|Chain)<.*> as Iterator>::next$"), m_lazy_next),
+        (rx(r"^<(?:std::iter::)?(Map|Filter|SkipWhile|TakeWhile|Take|Skip|Zip|Enumerate|Chain)<.*> as IntoIterator>::into_iter$"), m_into_iter_identity),
     ]
